@@ -37,6 +37,21 @@ Theorem C03_spec_dec : forall v t fuel rest, wf_ty t = true -> has_ty v t = true
 Proof. exact spec_dec_enc_top. Qed.
 Print Assumptions C03_spec_dec.
 
+(* the serializers compose: what the reflection encoder writes, the typed decoder of the
+   documented format reads back as the same value, consuming exactly those bytes *)
+Theorem C03_refl_enc_spec_dec : forall c v t fuel rest, refl_drop8 c = false -> wf_ty t = true ->
+  has_ty v t = true -> refl_domain t = true -> (dyn_depth v <= fuel)%nat ->
+  spec_dec parse_opt fuel t (refl_enc c v ++ rest) = ROk (v, rest).
+Proof. exact refl_enc_spec_dec. Qed.
+Print Assumptions C03_refl_enc_spec_dec.
+
+(* for a fixed signature the documented layout determines the value: two well-typed values
+   followed by any bytes that give the same byte string are equal, and so are the trailing bytes *)
+Theorem C03_layout_injective : forall t v1 v2 r1 r2, wf_ty t = true -> has_ty v1 t = true -> has_ty v2 t = true ->
+  spec_enc v1 ++ r1 = spec_enc v2 ++ r2 -> v1 = v2 /\ r1 = r2.
+Proof. exact spec_enc_injective. Qed.
+Print Assumptions C03_layout_injective.
+
 Theorem C03_refuted_value_reader :
   has_ty dyn5 (TS SValue) = true /\
   exists d, sig_read parse_opt only_value_reader 1 (TS SValue) (spec_enc dyn5) = ROk (d, []) /\ d <> spec_enc dyn5.
